@@ -352,7 +352,7 @@ def run_check(run, tier, seed, shard):
     deadline = t0 + budget
 
     # 1. random DAGs x orders
-    n_dags = 320 if quick else 16000
+    n_dags = 320 if quick else 12000
     idx = shard_slice(range(n_dags), shard)
     for i in idx:
         if time.time() > deadline or run.too_many:
